@@ -5,7 +5,7 @@
 import json
 import subprocess
 
-RANGES = [(1, 1, "C20"), (2, 2, "C01"), (3, 8, "C03"), (9, 15, "C18"), (16, 16, "C03"), (17, 19, "C06"),
+RANGES = [(75, 76, "C04"), (1, 1, "C20"), (2, 2, "C01"), (3, 8, "C03"), (9, 15, "C18"), (16, 16, "C03"), (17, 19, "C06"),
           (20, 25, "C08"), (26, 26, "C16"), (27, 29, "C01"), (30, 35, "C19"), (36, 37, "C09"), (38, 39, "C02"),
           (40, 44, "C05"), (45, 48, "C17"), (49, 51, "C15"), (52, 58, "C13"), (59, 61, "C14"), (62, 67, "C07"),
           (68, 68, "C10"), (69, 70, "C12"), (71, 74, "C11")]
